@@ -56,6 +56,20 @@ def c12_a(ctx):
     ctx.check(ok, f, 'returns the distance values', 'd (flattened when n x 1)',
               'the returned value is {}'.format(show(t)[:100] if t else None), fn=f,
               node=rr[-1] if rr else f.node)
+    # flattening only removes a single *column*: the row (batch) axis is never folded away
+    flat = [n for n in own_nodes(f.node) if isinstance(n, ast.Assign) and
+            match(ex.raw(n.value), pattern('_d.reshape(-1)')) is not None]
+    for n in flat:
+        facts = [t_ for (t_, pol_, _) in ctx.guards(f, n) if pol_ and t_[0] != 'bool']
+        one_col = any(match(t_, pattern('_d.shape[1] == 1')) is not None for t_ in facts)
+        foreign = [t_ for t_ in facts
+                   if match_any(t_, ('_d.shape[1] == 1', '_d.ndim == 2', '2 <= _d.ndim',
+                                     '1 < _d.ndim')) is None and t_[0] != 'unary']
+        ctx.check(one_col and not foreign, f, 'flattened only when there is a single column',
+                  'if d.ndim == 2 and d.shape[1] == 1',
+                  'the distance matrix is flattened under {} - not exactly when it has one '
+                  'column: a 1 x k result (batch_size 1, several observed rows) becomes k values '
+                  'for one simulation'.format([show(t_)[:40] for t_ in facts]), fn=f, node=n)
     # 'observed' is keyword-only: matches the compiler's edge parameter (C03-a)
     ctx.check('observed' in [x.arg for x in f.node.args.kwonlyargs], f, 'observed by keyword',
               'keyword-only `observed`', '`observed` is not a keyword-only parameter', fn=f,
